@@ -94,7 +94,9 @@ def generic(prop, cfg, tier, seed, parts, extra_viol=(), extra_cov=None, extra_k
             f = keep_failure_file(prop, dict(f))
             f["tool"] = tool
             f["replay_cmd"] = "/verif/build/bin/%s -seed %d -n %d -pigeon /verif/build/bin/pigeon %s   (or feed the saved file)" % (tool, seed, n, " ".join(extra))
-            rep("%s/%s" % (tool, f.get("kind", "failure")), f)
+            # a rejection by the verified validator is a broken obligation, not a failing input (the tool's own
+            # comparison of sentences is what exhibits one, as a separate failure)
+            rep("%s/%s" % (tool, f.get("kind", "failure")), f, failing=(f.get("kind") != "validator-reject"))
         if r.get("failure_count", 0) > len(r.get("failures") or []):
             nviol += r["failure_count"] - len(r["failures"])
         # listed known findings of this tool: does the class still reproduce? The replay uses a FIXED seed and size
